@@ -115,3 +115,31 @@ func (s *Sim) FetchOn(rep *Replica, p int) error {
 	rep.Tree = t
 	return nil
 }
+
+// DeliverStreamOn feeds a response stream to a specific replica object through its real
+// response collector (as the request manager does: it stops at the first collector error)
+// and returns that error verbatim.
+func (s *Sim) DeliverStreamOn(rep *Replica, m *Msg) error {
+	if m.Kind != ResponseStream {
+		return fmt.Errorf("not a response stream")
+	}
+	if rep.Tree == nil {
+		return fmt.Errorf("replica has no tree")
+	}
+	collector := rep.Tree.ResponseCollector()
+	ctx := peer.CtxWithPeerId(context.Background(), peerName(m.From))
+	for _, b := range m.Stream {
+		resp := collector.NewResponse()
+		msg := &spacesyncproto.ObjectSyncMessage{}
+		if err := msg.UnmarshalVT(b); err != nil {
+			return err
+		}
+		if err := resp.(protoSettable).SetProtoMessage(msg); err != nil {
+			return err
+		}
+		if err := collector.CollectResponse(ctx, peerName(m.From), m.ObjectId, resp); err != nil {
+			return err
+		}
+	}
+	return nil
+}
